@@ -1,6 +1,7 @@
 import FastraceModel.Driver.Codec
 import FastraceModel.Driver.Report
 import FastraceModel.Driver.Seq
+import FastraceModel.Driver.Spsc
 open Fastrace.Driver
 
 /-- line-protocol driver: first line `mode <m>`, then one request per line -/
@@ -24,6 +25,7 @@ def main : IO Unit := do
   match words first with
   | ["mode", "codec"] => loop stdin stdout codecStep
   | ["mode", "report"] => loop stdin stdout reportStep
+  | ["mode", "spsc"] => loopSt stdin stdout spscStep ⟨none, false⟩
   | ["mode", "off"] => loop stdin stdout offStep
   | ["mode", "seq"] => loopSt stdin stdout seqStep ⟨Fastrace.Sys.init, 0⟩
   | _ => IO.eprintln "fmodel: unknown mode"; IO.Process.exit 2
